@@ -4,6 +4,8 @@ package state
 
 import (
 	"crypto/ed25519"
+
+	"github.com/mycoria/crop"
 	"net/netip"
 	"time"
 
@@ -220,7 +222,11 @@ func VfC03Expiry() {
 	ip := vfAddr03()
 	own := &m.Address{PublicAddress: m.PublicAddress{IP: vfAddr03(), PublicKey: ed25519.PublicKey(make([]byte, 32))}, PrivateKey: ed25519.PrivateKey(make([]byte, 64))}
 	st := VfNewState(&VfInstance{Id: own, Cfg: &config.Config{}})
-	vf.Assert(st.AddRouter(&m.PublicAddress{IP: ip, PublicKey: ed25519.PublicKey(make([]byte, 32))}) == nil, "add-router")
+	// a router whose identity proves its address (sessions are only re-created from stored
+	// identities that do): the hash is a model, the digest prefix is assumed to be the address
+	ra := &m.PublicAddress{IP: ip, Hash: crop.BLAKE3, Type: crop.KeyPairTypeEd25519, PublicKey: ed25519.PublicKey(make([]byte, 32))}
+	vf.Assume(ra.VerifyAddress() == nil)
+	vf.Assert(st.AddRouter(ra) == nil, "add-router")
 	s := st.GetSession(ip)
 	vf.Assert(s != nil, "no-session")
 	T := vf.TimeSec()
